@@ -39,6 +39,9 @@ func (sc *c14Scenario) persisted() bool {
 
 // cacheTier is the tier double that must hold the cache copy of the key for node n.
 func (sc *c14Scenario) cacheTier(n int) string {
+	if sc.Topo.Raw {
+		return "rawmem" // never appears in the tier log
+	}
 	if sc.Topo.Common {
 		return "cacheAll"
 	}
@@ -79,6 +82,11 @@ func (sc *c14Scenario) start(s *vk.Sched, fault *c14Fault) *c14World {
 			w.do("main", c14Step{Node: 0, Kind: "set", Arg: "v0"})
 		}
 		if sc.Init == "cold" {
+			for _, m := range w.raw {
+				if m != nil {
+					_ = m.Delete(sc.Key)
+				}
+			}
 			seen := map[*c14Cache]bool{}
 			for _, c := range []*c14Cache{w.cache[0], w.cache[1], w.shrd} {
 				if c != nil && !seen[c] {
@@ -266,14 +274,15 @@ func (ev *c14Eval) coverage() {
 	type upd struct {
 		basisTier string
 		basisSeq  int
-		set       map[string]int
+		set       map[string]int // first successful Set per tier
+		last      map[string]int // last successful Set/Delete per tier
 	}
 	var ups []upd
 	for _, h := range ev.hist {
 		if h.Phase != 1 || h.Err != "" || (h.Kind != "append" && h.Kind != "remove") {
 			continue
 		}
-		x := upd{basisSeq: -1, set: map[string]int{}}
+		x := upd{basisSeq: -1, set: map[string]int{}, last: map[string]int{}}
 		for _, i := range h.tier {
 			t := ev.log[i]
 			if t.Err {
@@ -286,6 +295,11 @@ func (ev *c14Eval) coverage() {
 				if _, ok := x.set[t.Tier]; !ok {
 					x.set[t.Tier] = t.Seq
 				}
+			}
+			if t.Op == "Set" || t.Op == "Delete" {
+				// Delete: the facade invalidating a cache entry it could not overwrite is
+				// this update's (last) effect on that tier
+				x.last[t.Tier] = t.Seq
 			}
 		}
 		if x.basisSeq >= 0 && len(x.set) > 0 {
@@ -318,8 +332,8 @@ func (ev *c14Eval) coverage() {
 				continue
 			}
 			// ... and j overwrote i somewhere
-			for tier, wj := range ups[j].set {
-				if w, ok := ups[i].set[tier]; ok && wj > w {
+			for tier, wj := range ups[j].last {
+				if w, ok := ups[i].last[tier]; ok && wj > w {
 					ev.out.Overlap = true
 				}
 			}
@@ -332,7 +346,9 @@ func (ev *c14Eval) coverage() {
 func (ev *c14Eval) routing() {
 	sc := ev.sc
 	allowed := map[string]bool{}
-	if sc.Topo.Common {
+	if sc.Topo.Raw {
+		// cache calls are invisible
+	} else if sc.Topo.Common {
 		allowed["cacheAll"] = true
 	} else if (sc.Cat == c14Shared || sc.Cat == c14SharedPersistent) && sc.Topo.Shared {
 		allowed["shared"] = true
@@ -384,6 +400,9 @@ func (ev *c14Eval) routing() {
 			continue // judged by the behavioural oracle
 		}
 		need := []string{sc.cacheTier(h.Node)}
+		if sc.Topo.Raw {
+			need = nil
+		}
 		if sc.persisted() {
 			need = append(need, "pers")
 		}
@@ -659,6 +678,9 @@ func (ev *c14Eval) lists() {
 		}
 		effect := "lost"
 		sig, why := ev.classify(h.Node, upto, "list")
+		if sc.Topo.Raw {
+			sig, why = ev.classifyRaw()
+		}
 		if sig == "" {
 			sig = fmt.Sprintf("C14:list-unexplained|category=%s", ev.cat())
 			why = "no overlapping updates, no late write-back, no injected fault explains it"
@@ -754,6 +776,34 @@ func (ev *c14Eval) classify(node int, upto int, mode string) (sig, why string) {
 	// basis of a later get-modify-set, which spreads the loss to every tier)
 	if anyLate >= 0 {
 		return staleSig(anyLate, " (the stale cache copy was then read by a later operation)")
+	}
+	return "", ""
+}
+
+// classifyRaw: raw-memory topology, single-threaded list scenarios (no concurrency, the
+// write-back completes before the next tier call, so none of the known causes can
+// apply). A list update on a cold cache that wrote the persistent tier without having
+// read the list from it first rebuilt the list from nothing.
+func (ev *c14Eval) classifyRaw() (sig, why string) {
+	for _, h := range ev.hist {
+		if h.Phase != 1 || h.Err != "" || (h.Kind != "append" && h.Kind != "remove") {
+			continue
+		}
+		read := false
+		for _, i := range h.tier {
+			t := ev.log[i]
+			if t.Tier != "pers" || t.Err {
+				continue
+			}
+			if t.Op == "Get" {
+				read = true
+			}
+			if t.Op == "Set" && !read && ev.sc.Init == "cold" {
+				return fmt.Sprintf("C14:listlost|category=%s|pattern=cold-cache-%s-overwrites", ev.cat(), h.Kind),
+					"with the cache entry gone (restart / expiry) and the full list only in the persistent tier, " + h.Kind +
+						" wrote a list to the persistent tier without loading the stored list first: the earlier members are overwritten"
+			}
+		}
 	}
 	return "", ""
 }
